@@ -63,10 +63,13 @@ def refs_of(s):
         return [r for v in s.values() for r in refs_of(v)]
     return []
 
-def plain(v):
-    """what json would store: wrappers gone, tuples are lists"""
-    if isinstance(v, dict): return {k: plain(x) for k, x in v.items()}
-    if isinstance(v, (list, tuple)): return [plain(x) for x in v]
+def plain(v, _stack=()):
+    """what json would store: wrappers gone, tuples are lists (a container that contains itself is cut with a marker)"""
+    if isinstance(v, (dict, list, tuple)):
+        if id(v) in _stack: return '<cycle>'
+        _stack = _stack + (id(v),)
+    if isinstance(v, dict): return {k: plain(x, _stack) for k, x in v.items()}
+    if isinstance(v, (list, tuple)): return [plain(x, _stack) for x in v]
     return v
 
 def canon(v):
@@ -85,14 +88,17 @@ def bound(v, owner):
     """is `v` a Tracked wrapper that notifies THIS object about THIS attribute"""
     return bool(owner) and isinstance(v, TrackedValue) and v.obj_ref() is owner[0] and v.attr is owner[1]
 
-def to_T(v, akind=None, flags=False):
+def to_T(v, akind=None, flags=False, _stack=()):
     """value -> encoding of Model.Tracked.T; `flags` = (object, attribute): w = is a Tracked wrapper bound to them"""
+    if isinstance(v, (dict, list, tuple)):
+        if id(v) in _stack: return '<cycle>'
+        _stack = _stack + (id(v),)
     if isinstance(v, dict):
-        return {'k': 'dict', 'w': bound(v, flags), 'items': [[k, to_T(x, None, flags)] for k, x in v.items()]}
+        return {'k': 'dict', 'w': bound(v, flags), 'items': [[k, to_T(x, None, flags, _stack)] for k, x in v.items()]}
     if isinstance(v, list):
-        return {'k': akind or 'list', 'w': bound(v, flags), 'items': [['', to_T(x, None, flags)] for x in v]}
+        return {'k': akind or 'list', 'w': bound(v, flags), 'items': [['', to_T(x, None, flags, _stack)] for x in v]}
     if isinstance(v, tuple):
-        return {'k': 'tup', 'w': False, 'items': [['', to_T(x, None, flags)] for x in v]}
+        return {'k': 'tup', 'w': False, 'items': [['', to_T(x, None, flags, _stack)] for x in v]}
     return v
 
 def strip_keys(t):
@@ -306,9 +312,10 @@ def model_mut(c, target_before):
     if c.get('boom') is not None or c.get('bad') is not None: return None     # an argument that raises midway: outside the model
     raw = lambda v: to_T(dec(v), None, False)
     if c['t'] == 'lmut':
-        if n in ('setslice_step', 'delslice_step'): return None
         if n in ('setitem', 'insert'): m.update(i=c['i'], v=raw(c['v']))
         elif n in ('setslice',): m.update(a=c['a'], b=c['b'], k=MODEL_KIND[c['k']], vs=[raw(v) for v in c['vs']])
+        elif n == 'setslice_step': m.update(n='setsliceStep', a=c['a'], b=c['b'], s=c['s'], k=MODEL_KIND[c['k']], vs=[raw(v) for v in c['vs']])
+        elif n == 'delslice_step': m.update(n='delsliceStep', a=c['a'], b=c['b'], s=c['s'])
         elif n == 'delitem': m.update(i=c['i'])
         elif n == 'delslice': m.update(a=c['a'], b=c['b'])
         elif n in ('append', 'remove'): m.update(v=raw(c['v']))
@@ -624,9 +631,18 @@ def execute(env, attr, init, prog, created=False, source=None):
         with db_session:
             loaded = canon(getattr(E[st['pk']], attr))
         if loaded != insess: res.losses.append({'at': len(prog), 'kind': 'new session', 'observed': loaded, 'expected': insess})
-    except BaseException:
+    except BaseException as ex:
+        import traceback
+        frames = [f.name for f in traceback.extract_tb(ex.__traceback__)]
         try: ds.__exit__(*sys.exc_info())
         except Exception: pass
+        RESOLVE[0] = None
+        if isinstance(ex, Exception) and any(n in ('_save_', '_save_updated_', '_save_created_') for n in frames):
+            # an implicit flush (before a query, e.g. the load of a lazy attribute) failed to write the object
+            res.losses.append({'at': res.executed - 1, 'kind': 'raised', 'observed': 'saving the object raised %s: %s' % (type(ex).__name__, str(ex)[:80]),
+                               'expected': canon(st.get('mirror'))})
+            res.model_valid = False
+            return res
         raise
     return res
 
